@@ -725,7 +725,8 @@ export class NeverRuntype extends BaseRuntype {
     return "never";
   }
   schema(_ctx: SchemaContext): JSONSchema7 {
-    return annotateSchema(this.metadata, { anyOf: [] });
+    // `anyOf` must not be empty in JSON Schema; `not: {}` is the schema no document satisfies
+    return annotateSchema(this.metadata, { not: {} });
   }
   validate(_ctx: ValidateContext, _input: unknown): boolean {
     return false;
